@@ -59,6 +59,9 @@ CFG = {
     "1-ren": (1, [["k", "rk"]], ["rk"], "p", True),
     "1-ren-clash": (1, [["k", "rk"]], ["rk"], "id", True),
     "1-ren-leftkey": (1, [["k", "rk"]], ["rk"], "k", False),
+    # right items that hold nothing but the join key(s): a match that merges nothing is still a match
+    "1-same-bare": (1, ["k"], ["k"], None, False),
+    "1-ren-bare": (1, [["k", "rk"]], ["rk"], None, False),
     "2-same": (2, ["k", "k2"], ["k", "k2"], "p", True),
     "2-same-clash": (2, ["k", "k2"], ["k", "k2"], "id", True),
     "2-ren": (2, [["k", "rk"], ["k2", "rk2"]], ["rk", "rk2"], "p", True),
@@ -138,7 +141,8 @@ def left_item(nk, combo, i):
 
 def right_item(rnames, pkey, combo, j):
     item = {name: v for name, v in zip(rnames, combo)}
-    item[pkey] = f"R{j}"
+    if pkey is not None:
+        item[pkey] = f"R{j}"
     return item
 
 
